@@ -782,7 +782,8 @@ def direct_case(item):
     _, seed, n = item
     rnd = random.Random(seed)
     rows = []
-    texts = ['t', 'a b', 'x:y', '@@ z', '@@REDO:do:1:1.0@@ q', '0 name', '', ':', 'a@@b', '@@', ' lead', 'trail ', '\t', 'ünï', '12 a b c', '-1 x']
+    texts = ['t', 'a b', 'x:y', '@@ z', '@@REDO:do:1:1.0@@ q', '0 name', '', ':', 'a@@b', '@@', ' lead', 'trail ', '\t', 'ünï', '12 a b c', '-1 x',
+             '-9 t', '-15 sub/t x', '255 a', '2147483647 n', '-2147483648 n', '1  two-spaces', '0 ']
     for i in range(n):
         kind = rnd.choice(KINDS)
         pid = rnd.choice([0, 1, 2, 99, 32768, 4194304, 2 ** 31 - 1, rnd.randrange(1, 10 ** 6)])
@@ -803,6 +804,7 @@ def direct_case(item):
                         violations=[dict(key='record-roundtrip-panic', what=err[-300:])], replay=dict(kind='direct', item=list(item)))
         return dict(verdict='inconclusive', why='native harness failed: %s' % err[-200:])
     anoms = []
+    n_done = [0]
     for (kind, pid, ts, text), r in zip(rows, out):
         if r[0] != 'ok':
             anoms.append(dict(key='record-does-not-reparse', what='(%s, %d, %r, %r) formats to %r which parse rejects' % (kind, pid, ts, text, bytes.fromhex(r[1]).decode('utf-8', 'replace'))))
@@ -813,8 +815,16 @@ def direct_case(item):
             anoms.append(dict(key='record-roundtrip-differs', what='(%s, %d, %r, %r) -> %r -> (%s, %d, %r, %r)' % (kind, pid, ts, text, line, k2, p2, t2, x2)))
         if '\n' in line:
             anoms.append(dict(key='record-contains-newline', what=repr(line)))
+        # the exit status and the name the viewer reads out of a "done" record (what redo writes: a decimal i32, one space, the name)
+        if kind == 'done' and len(r) >= 7:
+            md = re.match(r'^(-?\d+) (.*)$', text, re.S)
+            if md and -2 ** 31 <= int(md.group(1)) < 2 ** 31:
+                n_done[0] += 1
+                got = (r[6], bytes.fromhex(r[7] if len(r) > 7 else '').decode('utf-8', 'replace'))
+                if got != (str(int(md.group(1))), md.group(2)):
+                    anoms.append(dict(key='done-record-status-or-name-lost', what='done record %r is read back as status/name %r' % (text, got)))
     res = dict(verdict='violated' if anoms else 'held', nontrivial=True, shape=common.shash(list(item)), sample=dict(kind='direct-roundtrip', seed=seed, records=n),
-               obs=dict(record_roundtrips=len(rows)), sets=dict(record_kinds_roundtripped=KINDS))
+               obs=dict(record_roundtrips=len(rows), done_records_read_back=n_done[0]), sets=dict(record_kinds_roundtripped=KINDS))
     if anoms:
         seen = set()
         res['violations'] = [a for a in anoms if not (a['key'] in seen or seen.add(a['key']))][:4]
